@@ -3,6 +3,7 @@
 package css_parser
 
 import (
+	"github.com/evanw/esbuild/internal/ast"
 	"github.com/evanw/esbuild/internal/css_ast"
 	"github.com/evanw/esbuild/internal/css_lexer"
 )
@@ -19,7 +20,7 @@ import (
 
 type hSel struct {
 	typ    int // 0 none, 1 `a`, 2 `b`
-	pseudo int // 0 none, 1 :hover, 2 :focus-visible (modern)
+	pseudo int // 0 none, 1 :hover, 2 :focus-visible (modern), 3 :active
 }
 
 type hRule struct {
@@ -32,6 +33,7 @@ type hElem struct {
 	typ      int // 1 a, 2 b, 3 c
 	hover    bool
 	focusVis bool
+	active   bool
 }
 
 func hSelMatches(s hSel, e hElem) bool {
@@ -43,6 +45,8 @@ func hSelMatches(s hSel, e hElem) bool {
 		return e.hover
 	case 2:
 		return e.focusVis
+	case 3:
+		return e.active
 	}
 	return true
 }
@@ -102,6 +106,8 @@ func hBuildRule(r hRule) css_ast.Rule {
 			c.SubclassSelectors = []css_ast.SubclassSelector{{Data: &css_ast.SSPseudoClass{Name: "hover"}}}
 		case 2:
 			c.SubclassSelectors = []css_ast.SubclassSelector{{Data: &css_ast.SSPseudoClass{Name: "focus-visible"}}}
+		case 3:
+			c.SubclassSelectors = []css_ast.SubclassSelector{{Data: &css_ast.SSPseudoClass{Name: "active"}}}
 		}
 		sels = append(sels, css_ast.ComplexSelector{Selectors: []css_ast.CompoundSelector{c}})
 	}
@@ -157,6 +163,8 @@ func hReadRules(rules []css_ast.Rule) ([]hRule, bool) {
 					s.pseudo = 1
 				case "focus-visible":
 					s.pseudo = 2
+				case "active":
+					s.pseudo = 3
 				default:
 					return nil, false
 				}
@@ -178,7 +186,7 @@ func vK12dRules() {
 	for i := range in {
 		k := hLen(1, maxSels)
 		for j := 0; j < k; j++ {
-			s := hSel{typ: vChoose(3), pseudo: vChoose(3)}
+			s := hSel{typ: vChoose(vParam("TYPES", 3)), pseudo: vChoose(vParam("PSEUDOS", 4))}
 			vAssume(s.typ != 0 || s.pseudo != 0)
 			in[i].sels = append(in[i].sels, s)
 		}
@@ -188,10 +196,29 @@ func vK12dRules() {
 	}
 	p := &parser{}
 	p.options.minifySyntax = true
+	if m := vParam("MEDIA", 0); m == 2 || (m == 1 && vBool()) {
+		// the rule list is the body of `@media print { ... }` and one of its
+		// rules is wrapped in a nested `@media print { ... }` with the same
+		// condition (always true here), which mangleRules unwraps
+		q := []css_ast.MediaQuery{{Data: &css_ast.MQType{Type: "print"}}}
+		p.enclosingAtMedia = [][]css_ast.MediaQuery{q}
+		k := vChoose(n)
+		q2 := []css_ast.MediaQuery{{Data: &css_ast.MQType{Type: "print"}}}
+		rules[k] = css_ast.Rule{Data: &css_ast.RAtMedia{Queries: q2, Rules: []css_ast.Rule{rules[k]}}}
+	}
 	outRules := p.mangleRules(rules, vBool())
-	out, ok := hReadRules(outRules)
+	// a nested @media with the enclosing condition is transparent
+	var flat []css_ast.Rule
+	for _, r := range outRules {
+		if m, isMedia := r.Data.(*css_ast.RAtMedia); isMedia {
+			flat = append(flat, m.Rules...)
+		} else {
+			flat = append(flat, r)
+		}
+	}
+	out, ok := hReadRules(flat)
 	vAssert(ok, "output consists of the same kind of rules")
-	e := hElem{typ: 1 + vChoose(3), hover: vBool(), focusVis: vBool()}
+	e := hElem{typ: 1 + vChoose(vParam("TYPES", 3)), hover: vBool(), focusVis: vBool(), active: vBool()}
 	modern := vBool()
 	got := hWinnerRule(out, e, modern)
 	wantHere := hWinnerRule(in, e, modern)
@@ -203,5 +230,111 @@ func vK12dRules() {
 	if modern {
 		vAssert(got == wantModern, "the winning declaration is equal outright when the browser understands every selector")
 	}
+	vReach("end")
+}
+
+// vK12dLayers: duplicate removal across cascade layers. The bundler hands the
+// rule lists of all files (in reverse order) to one DeadRuleRemover; blocks
+// `@layer x { ... }` that are byte-for-byte duplicates are dropped except for
+// the last one. Cascade layers are ordered by *first* declaration, so dropping
+// an earlier block must not change the layer order, and the winning
+// declaration for an element must stay the same.
+func vK12dLayers() {
+	n := hLen(2, vParam("BLOCKS", 3))
+	type blk struct {
+		layer int // 0 x, 1 y
+		color int
+	}
+	layerNames := []string{"x", "y"}
+	in := make([]blk, n)
+	rules := make([]css_ast.Rule, n)
+	for i := range in {
+		in[i] = blk{layer: vChoose(2), color: vChoose(2)}
+		inner := hBuildRule(hRule{sels: []hSel{{typ: 1}}, color: in[i].color})
+		rules[i] = css_ast.Rule{Data: &css_ast.RAtLayer{Names: [][]string{{layerNames[in[i].layer]}}, Rules: []css_ast.Rule{inner}}}
+	}
+	// `@import "f.css" layer(x)` is wrapped by the linker as a known at-rule
+	// with the layer name as its prelude
+	importForm := vBool()
+	if importForm {
+		for i := range in {
+			inner := rules[i].Data.(*css_ast.RAtLayer).Rules
+			rules[i] = css_ast.Rule{Data: &css_ast.RKnownAt{AtToken: "layer",
+				Prelude: []css_ast.Token{{Kind: css_lexer.TIdent, Text: layerNames[in[i].layer]}}, Rules: inner}}
+		}
+	}
+	// as the linker does: one call per file, last file first
+	perFile := vBool()
+	remover := MakeDeadRuleMangler(ast.SymbolMap{})
+	var outRules []css_ast.Rule
+	if perFile {
+		for i := n - 1; i >= 0; i-- {
+			kept := remover.RemoveDeadRulesInPlace(uint32(i), []css_ast.Rule{rules[i]}, nil)
+			outRules = append(append([]css_ast.Rule{}, kept...), outRules...)
+		}
+	} else {
+		outRules = remover.RemoveDeadRulesInPlace(0, rules, nil)
+	}
+	// read the result: sequence of (layer, colour or -1 for an empty block / statement)
+	var out []blk
+	for _, r := range outRules {
+		var name string
+		var body []css_ast.Rule
+		switch l := r.Data.(type) {
+		case *css_ast.RAtLayer:
+			vAssert(len(l.Names) == 1 && len(l.Names[0]) == 1, "output consists of single-name layer rules")
+			name, body = l.Names[0][0], l.Rules
+		case *css_ast.RKnownAt:
+			vAssert(l.AtToken == "layer" && len(l.Prelude) == 1, "output consists of single-name layer rules")
+			name, body = l.Prelude[0].Text, l.Rules
+		default:
+			vAssert(false, "output consists of layer rules")
+		}
+		b := blk{color: -1}
+		if name == "y" {
+			b.layer = 1
+		}
+		if len(body) == 1 {
+			rs, ok := hReadRules(body)
+			vAssert(ok && len(rs) == 1, "layer body readable")
+			b.color = rs[0].color
+		}
+		out = append(out, b)
+	}
+	// layer order = order of first declaration
+	order := func(bs []blk) (first [2]int) {
+		first = [2]int{-1, -1}
+		k := 0
+		for _, b := range bs {
+			if first[b.layer] < 0 {
+				first[b.layer] = k
+				k++
+			}
+		}
+		return
+	}
+	oi, oo := order(in), order(out)
+	// the winner for <a>: the last declaration inside the layer that comes last in layer order
+	winner := func(bs []blk, ord [2]int) int {
+		best, bestLayerPos := -1, -1
+		for _, b := range bs {
+			if b.color < 0 {
+				continue
+			}
+			if ord[b.layer] >= bestLayerPos {
+				best, bestLayerPos = b.color, ord[b.layer]
+			}
+		}
+		return best
+	}
+	for l := 0; l < 2; l++ {
+		if oi[l] >= 0 {
+			vAssert(oo[l] >= 0, "a declared cascade layer is still declared")
+		}
+	}
+	if oi[0] >= 0 && oi[1] >= 0 {
+		vAssert((oi[0] < oi[1]) == (oo[0] < oo[1]), "removing duplicate rules keeps the order in which cascade layers are first declared")
+	}
+	vAssert(winner(in, oi) == winner(out, oo), "the winning declaration is unchanged by duplicate removal across layers")
 	vReach("end")
 }
